@@ -116,9 +116,11 @@ Definition set_odir s v := mkSt (rin s) (lb s) (ub s) (sto s) (min s) (back s) (
 Definition set_ctx s v := mkSt (rin s) (lb s) (ub s) (sto s) (min s) (back s) (vin s) (vlb s) (vub s) (cin s) (co s) (oc s) (odir s) v (rids s) (mids s).
 Definition set_ids s a b := mkSt (rin s) (lb s) (ub s) (sto s) (min s) (back s) (vin s) (vlb s) (vub s) (cin s) (co s) (oc s) (odir s) (ctx s) a b.
 
-Definition init : st :=
+(* an empty Model(); the identifier universe of the history is fixed up front *)
+Definition init_u (rs ms : list Z) : st :=
   mkSt (fun _ => false) (fun _ => Fn q0) (fun _ => Fn q0) (fun _ _ => q0) (fun _ => false) (fun _ _ => false)
-       (fun _ => false) (fun _ => NInf) (fun _ => PInf) (fun _ => false) (fun _ _ => q0) (fun _ => q0) true [] [] [].
+       (fun _ => false) (fun _ => NInf) (fun _ => PInf) (fun _ => false) (fun _ _ => q0) (fun _ => q0) true [] rs ms.
+Definition init : st := init_u [] [].
 
 (* context(f): record on the innermost history, if any *)
 Definition record (u : undo) (s : st) : st :=
@@ -407,20 +409,16 @@ Inductive op :=
 | Imul (r : Z) (c : Qc)                                (* r *= c, c <> 0 *)
 | Enter | Exit.
 
-Definition note_ids (rs ms : list Z) (s : st) : st :=
-  set_ids s (rs ++ filter (fun r => negb (existsb (Z.eqb r) rs)) (rids s))
-            (ms ++ filter (fun m => negb (existsb (Z.eqb m) ms)) (mids s)).
-
 Definition step (s : st) (o : op) : st * res :=
   match o with
   | NewRxn r l u st0 =>
       if rin s r then (s, Ok) else          (* one object per identifier: the id of a model reaction is taken *)
-      let s0 := note_ids [r] (map fst st0) s in
+      let s0 := s in
       let s1 := set_lbub s0 (upd (lb s0) r l) (upd (ub s0) r u) in
       (set_sto s1 (upd (sto s1) r (fun m => fold_left (fun a mc => if fst mc =? m then snd mc else a) st0 q0)), Ok)
-  | AddRxn r => (add_rxn r (note_ids [r] [] s), Ok)
+  | AddRxn r => (add_rxn r s, Ok)
   | RemoveRxn r orphans => (remove_rxn r orphans s, Ok)
-  | AddMet m => let s0 := note_ids [] [m] s in
+  | AddMet m => let s0 := s in
       if min s0 m then (s0, Ok) else
       let s1 := model_add_mets [m] (set_back s0 (upd (back s0) m (fun _ => false))) in (s1, Ok)
   | RemoveMet m d => (if d then remove_met_d m s else remove_met_nd m s, Ok)
@@ -428,8 +426,8 @@ Definition step (s : st) (o : op) : st * res :=
   | SetLb r l => set_lb r l s
   | SetUb r u => set_ub r u s
   | KnockOut r => set_bounds r (Fn q0) (Fn q0) s
-  | AddSt r l c => add_st r l c true (note_ids [] (map fst l) s)
-  | SubSt r l c => add_st r (neg_list l) c true (note_ids [] (map fst l) s)
+  | AddSt r l c => add_st r l c true s
+  | SubSt r l c => add_st r (neg_list l) c true s
   | SetObj l => set_obj l false s
   | SetObjCoef r c => if rin s r then set_obj [(r, c)] true s else (s, RaiseOther)
   | SetDir d => (set_dir d s, Ok)
